@@ -103,7 +103,7 @@ def xlinked_part(ck, xcases, viol, dist):
                    "tied to both engines step by step incl. IsClosed of every instance and Runtime.Module(name) of every name",
                    "harness/c06/xlink.go (copy of harness/c20/link.go's generator of linked programs, without listeners)"]
     d = {"histories": len(xcases), "steps": 0, "exits": 0, "start_failures": {}, "instances_closed": 0, "calls_on_closed_instance": 0,
-         "calls_on_open_instance_after_an_exit": 0, "calls_on_open_instance_after_an_exit_elsewhere_in_chain": 0,
+         "calls_on_open_instance_after_an_exit": 0, "exits_closing_an_instance_other_than_the_entry": 0,
          "link_errors_after_close": 0, "histories_with_exit": 0, "outside_model": 0, "model_out_of_fuel": 0, "call_outcomes": {}}
     for c in xcases:
         po = c["engines"]["interp"]
@@ -126,7 +126,7 @@ def xlinked_part(ck, xcases, viol, dist):
             newly = [p for p, b in now.items() if b and not closed.get(p)]
             if "exit:" in res:
                 d["exits"] += 1; seen_exit = True
-                if a["t"] == "call" and newly and newly[0] != a["pos"]: d["calls_on_open_instance_after_an_exit_elsewhere_in_chain"] += 1
+                if a["t"] == "call" and newly and newly[0] != a["pos"]: d["exits_closing_an_instance_other_than_the_entry"] += 1
             d["instances_closed"] += len(newly)
             closed = now
         if seen_exit: d["histories_with_exit"] += 1
